@@ -56,6 +56,8 @@ def retile(k):
         n = len(re.findall(r'0x[0-9a-fA-F]+', l.rsplit('(', 1)[-1])) or 1
         k['annotations'][i] = f'P->V[{nxt}:{nxt + 32 * n}]: {m.group(1)}'
         nxt += 32 * n
+    if 'proof_hex' in k:       # only its LENGTH is looked at (the messages must cover it)
+        k['proof_hex'] = '0x' + '00' * nxt
 
 
 def edits(rng, j, tag):
@@ -186,7 +188,10 @@ def edits(rng, j, tag):
     out.append(E('last-message-range-dash', lambda k: k['annotations'].__setitem__(lastpv(k), re.sub(r'^P->V\[(\d+):(\d+)\]', r'P->V[\1-\2]', k['annotations'][lastpv(k)])), 'err'))
     firstpv = lambda k: min(i for i, l in enumerate(k['annotations']) if l.startswith('P->V'))
     out.append(E('first-message-paren-lost', lambda k: k['annotations'].__setitem__(firstpv(k), k['annotations'][firstpv(k)].rstrip(')')), 'err'))
-    out.append(E('trailing-message-removed', lambda k: k['annotations'].pop(max(i for i, l in enumerate(k['annotations']) if l.startswith('P->V'))), 'any'))
+    out.append(E('trailing-message-removed', lambda k: k['annotations'].pop(max(i for i, l in enumerate(k['annotations']) if l.startswith('P->V'))), 'err'))   # proof_hex is longer than what the messages cover
+    out.append(E('trailing-message-removed,no-proof-hex', lambda k: (k['annotations'].pop(max(i for i, l in enumerate(k['annotations']) if l.startswith('P->V'))), k.pop('proof_hex', None)), 'any'))
+    out.append(E('proof-hex-truncated', lambda k: k.__setitem__('proof_hex', k['proof_hex'][:-64]), 'err'))
+    out.append(E('proof-hex-absent', lambda k: k.pop('proof_hex'), 'ok'))
     out.append(E('log_n_cosets=2^32-1', lambda k: k['proof_parameters']['stark'].__setitem__('log_n_cosets', (1 << 32) - 1), 'err'))
     return [e for e in out if e]
 
@@ -205,7 +210,7 @@ def cases(rng, tier, feats, drv_ok):
     if tier == 'quick': srcs = [f for f in srcs if '/recursive/' in f or '/starknet/' in f or '/dynamic/' in f][:3]
     for f in srcs:
         j = json.load(open(f))
-        for k in ('private_input', 'proof_hex', 'prover_config'): j.pop(k, None)
+        for k in ('private_input', 'prover_config'): j.pop(k, None)
         tag = f.split('proofs/')[1].replace('/', '_').replace('.json', '')
         for name, ej, expect in edits(rng, j, tag):
             p = write(name, ej)
